@@ -108,6 +108,7 @@ type Path struct {
 	pc        []*Term
 	inputs    []Input
 	occ       map[string]int
+	pools     map[*value][]poolItem // sync.Pool contents
 	obs       []Obs
 	sites     map[string]int
 	cands     []Candidate
